@@ -733,6 +733,53 @@ def d14_probe(ctx: vlib.Ctx):
         hr.close()
 
 
+def first_call_probes(ctx: vlib.Ctx):
+    """Systematic: the FIRST call on a freshly created self-referencing class passes a dialect (every format mixin x
+    every way of referring to oneself x both directions, eager/postponed and lazy); then a plain call, then another
+    dialect.  Judged like any history (twin oracle + state machine correspondence)."""
+    cases, descr = [], []
+    for mixin in (None, "DataClassMessagePackMixin", "DataClassORJSONMixin", "DataClassTOMLMixin"):
+        for kind, lazy in (("byname", False), ("byname", True), ("selfopt", True), ("selflist", True), ("selfopt", False)):
+            for direction in (("to", "from") if mixin is None else ("mto", "mfrom")):
+                cfg = {"flags": ["dialect"]}
+                spec = {"dialects": {"1": {"omit_none": True, "serialize_by_alias": True, "int": "dict"},
+                                     "2": {"omit_default": True, "namedtuple_as_dict": True}},
+                        "classes": {"P": {"base": None, "mixin": mixin, "config": dict(cfg),
+                                          "fields": [["x", "int"], ["o", "opt"], ["a", "alias"], ["nxt", kind]]}},
+                        "order": ["P"], "flags": ["dialect"], "base_dialect": None, "mixin": mixin, "lazy": lazy, "cfg_int": False}
+                leaf = {"x": 6, "o": None, "a": 8}
+                nested = {"x": 5, "o": 3, "nxt": [leaf, leaf] if kind == "selflist" else leaf}
+                ops = [["define", "P"], ["call", "P", direction, 1, dict(nested)], ["call", "P", direction, None, dict(nested)],
+                       ["call", "P", direction, 2, dict(nested)], ["call", "P", direction, 1, dict(leaf)]]
+                hr = HistoryRun(spec, ops)
+                try:
+                    mm = hr.run()
+                    ctx.count(("first-call", mixin, kind, lazy, direction))
+                    ctx.hist("first_call_probes", f"{mixin or 'DataClassDictMixin'}:{kind}:{'lazy' if lazy else 'eager'}")
+                    if mm is not None:
+                        sig = classify_history_failure(hr, mm)
+                        ctx.fail(f"first call P.{direction}(dialect=D{mm['op'][2]}) on a fresh {mixin or 'DataClassDictMixin'} class with a "
+                                 f"{kind} field ({'lazy' if lazy else 'eager/postponed'}): result differs from the twin class whose default dialect is that dialect",
+                                 {"entry": "history", "spec": spec, "source": F.family_source(spec), "ops": ops[:mm["index"] + 1],
+                                  "observed": mm["observed"], "expected": mm["expected"]}, sig)
+                    else:
+                        for d in hr.dirs:
+                            cases.append(hr.cache_case(d))
+                            descr.append({"direction": d, "spec": spec, "ops": ops})
+                finally:
+                    hr.close()
+    bad, log = vlib.coq_bad_idx("c13_probe", "DialectCache DialectDeep", "", "Open Scope nat_scope.\n", cases,
+                                "deep_case_ok", "deep_case", shard=250, needs=["theories/DialectDeep.vo"])
+    name = "cache-state-machine-vs-first-call-probes"
+    if bad is None:
+        ctx.correspondence(name, len(cases), -1, log)
+        ctx.not_shown("correspondence " + name, log)
+    else:
+        ctx.correspondence(name, len(cases), len(bad), "; ".join(cases[i][:300] for i in bad[:2]))
+        if bad:
+            ctx.not_shown("correspondence " + name, f"{len(bad)} probes: {cases[bad[0]][:1200]} || {json.dumps(descr[bad[0]], default=str)[:1500]}")
+
+
 UNION_SRC = r'''
 from dataclasses import dataclass, field
 from typing import Optional, Union
@@ -888,6 +935,7 @@ def run(ctx: vlib.Ctx):
     strategy_corr(ctx)
     history_part(ctx)
     d14_probe(ctx)
+    first_call_probes(ctx)
     union_part(ctx)
     DOC.run_all(ctx)
     CD.codec_part(ctx)
